@@ -201,6 +201,8 @@ def frame_obligations(V, X, c, ev0, H0, hp, rr, pkg):
                     continue   # only stack locals of that type were allocated
                 V.add_obl('frame', newv == oldv, rr, label='alloc.' + name, text='allocates clause does not list ' + hk[1])
             continue
+        if hk[0] == 'ghost' and str(hk[1]).startswith('visited_'):
+            continue       # bookkeeping of a range-over-map loop (which keys were delivered): not program state
         if hk[0] == 'g' or (hk[0] == 'ghost' and len(hk) <= 3):
             if hk not in targets:
                 V.add_obl('frame', newv == oldv, rr, label=name, text='not in assigns')
